@@ -194,6 +194,8 @@ def analyse(src: Source) -> List[Report]:
     rep.ob("R18.4-bound-components", len(tup) == 1 and norm(tup[0].args[0]) == "(upper_bound, -lower_bound)",
            Loc(CV, tup[0].lineno if tup else ini.lineno, "CellVetoEventHandler.initialize"), tup[0] if tup else "bounds tuple",
            "component 0 is the upper bound, component 1 the negated lower bound")
+    from ..handler_dims import check_handler_dimensions
+    check_handler_dimensions(prog, src, rep, "R18.5-handler-dimensions", lambda h: prog.is_subclass(h, 'CellVetoEventHandler'))
     rep.expect_min("R18.2-mass-conserved", 1)
     rep.expect_min("R18.3-coin", 1)
     rep.expect_min("R18.4-candidate-time", 1)
@@ -218,6 +220,8 @@ MUTANTS = [
     Edit("refiled large item dropped", W, "            if large_item.rate < self._mean_rate:\n                small_list.append(large_item)\n            else:\n                large_list.append(large_item)\n",
          "            if large_item.rate > self._mean_rate:\n                large_list.append(large_item)\n", "R18.2"),
 ]
+MUTANTS.append(Edit("candidate time: speed on the wrong side", CV, "random.expovariate(setting.beta) / (total_rate * speed)",
+                    "random.expovariate(setting.beta) / total_rate * speed", "R18"))
 TWINS = [
     Edit("rename locals in sampling", W, "choice_from_table", "row", every=True),
     Edit("product reordered", CV, "total_rate = walker.total_rate * charge_factor", "total_rate = charge_factor * walker.total_rate"),
